@@ -23,11 +23,11 @@ ASSUMPTIONS = [
     'layers whose optical depth exceeds 10 at every wavenumber only "product <= model <= e^-10" is asserted',
     'per-component weighted opacities are observed through the public prepare_each() generator',
     'Rayleigh and Mie components are checked for proportionality to abundance / against C19, not against an independent cross-section',
-    'H- is not generated (needs H and e- species; its absorption law is outside this property)',
+    'H- (HydrogenIon) is generated with constant H and e- abundances: its absorption law is outside this property and is not judged; the product rule, order independence, single component and proportionality to the electron abundance are',
 ]
-REQUIRED = {'probe:contrib-first': 0.08, 'ncontrib>=2': 0.5, 'multi-component': 0.4, 'zero-species': 0.15, 'probe:fresh': 0.1,
+REQUIRED = {'has-hminus': 0.1, 'probe:contrib-first': 0.08, 'ncontrib>=2': 0.5, 'multi-component': 0.4, 'zero-species': 0.15, 'probe:fresh': 0.1,
             'probe:subgrid': 0.1, 'probe:param-change': 0.1}
-POOL = ['Absorption', 'CIA', 'Rayleigh', 'SimpleClouds', 'FlatMie', 'LeeMie']
+POOL = ['Absorption', 'CIA', 'Rayleigh', 'SimpleClouds', 'FlatMie', 'LeeMie', 'HydrogenIon']
 
 
 @st.composite
@@ -45,6 +45,8 @@ def _case(draw):
     w = draw(S.world(layers=(2, 25), nwn=(2, 10), extras=('CIA', 'SimpleClouds'),
                      mags=['mixed', 'mixed', 'transparent', 'saturated']))
     w['extras'] = ['CIA', 'SimpleClouds']
+    # H- needs atomic hydrogen and free electrons in the mixture
+    w['hminus'] = {'H': draw(st.floats(-4.0, -1.5)), 'e': draw(st.floats(-9.0, -4.0))} if 'HydrogenIon' in order else None
     return {'world': w, 'order': list(order), 'order2': draw(st.permutations(list(order))), 'zero': zero,
             'mie': mie, 'probe': probe, 'new_path': draw(st.booleans())}
 
@@ -65,6 +67,9 @@ def make_contribs(W, names, mie):
         elif n == 'LeeMie':
             out.append(LeeMieContribution(lee_mie_radius=mie['lee_radius'], lee_mie_q=mie['lee_q'],
                                           lee_mie_mix_ratio=mie['lee_mix']))
+        elif n == 'HydrogenIon':
+            from taurex.contributions.hm import HydrogenIon
+            out.append(HydrogenIon())
         else:
             out.extend(synth.make_contributions(W, [n]))
     return out
@@ -232,6 +237,23 @@ def check(case):
                 want = np.array([_lin_T(Tg, tab, float(T[l])) * f[l] for l in range(nl)])
                 if not close(sig, want, rtol=1e-9, atol=1e-300):
                     out.fail('component-sigma@CIA', '%s: opacity is not coefficient x mix1 x mix2' % pair)
+        elif c.name == 'HydrogenIon':
+            # its absorption law is outside this property; what is inside: one component, proportional to the
+            # abundance of the species it is made of (free electrons here), zero without them
+            out.cls('has-hminus')
+            if case['probe'] in ('contrib-first', 'param-change'):
+                continue                # the judged model's parameters were moved by the probe
+            out.applies('component-proportional')
+            try:
+                Wh = cut(out, 'build-world', build, wz, 0.25)
+                mh = cut(out, 'build-model', synth.make_model, Wh, 'transmission', make_contribs(Wh, ['HydrogenIon'], mie), **kw)
+                ch = mh.contribution_list[0]
+                comps_h = list((n, np.array(s_, copy=True)) for n, s_ in ch.prepare_each(mh, Wh.wn))
+                if len(comps) != 1 or len(comps_h) != 1 or not close(comps_h[0][1], 0.25 * comps[0][1], rtol=1e-9, atol=1e-300):
+                    out.fail('component-proportional@HydrogenIon', 'a quarter of the electrons does not give a quarter of the opacity')
+                build(wz)       # restore the registered tables of the judged world
+            except CutError:
+                pass
         elif c.name == 'Rayleigh':
             for gas, sig in comps:
                 out.applies('component-proportional')
@@ -293,5 +315,10 @@ def _lin_T(Tg, tab, T):
     return tab[i] * (1 - f) + tab[i + 1] * f
 
 
-def build(w):
-    return synth.build_world(w)
+def build(w, e_scale=1.0):
+    W = synth.build_world(w)
+    if w.get('hminus'):
+        from taurex.data.profiles.chemistry import ConstantGas
+        W.chemistry.addGas(ConstantGas('H', mix_ratio=10.0 ** w['hminus']['H']))
+        W.chemistry.addGas(ConstantGas('e-', mix_ratio=e_scale * 10.0 ** w['hminus']['e']))
+    return W
